@@ -2,7 +2,7 @@ from common import KERNEL, CORR
 
 PROP = dict(
     level="proof",
-    generators=["C05", "C18"],   # C18's AMF0 ops too: a published metadata message goes through the same reader (nesting bound, lengths)
+    generators=["C05", "C18", "C08"],   # AMF0 ops (published metadata goes through that reader) and chunk ops (every published message is re-chunked for RTMP consumers)
     search_seeds=2,
     search_thorough=False,
     harness_timeout=1500,
